@@ -1,4 +1,5 @@
 import MitmVerif.Model.C50
+import MitmVerif.Model.C50_Https
 import Driver.Proto
 open MitmVerif Driver
 
@@ -57,6 +58,20 @@ def c50Step (line : String) : String :=
         | none => "raise"
       | none => "bad-op"
     | _, _ => "bad-op"
+  | ["https", h] =>
+    match hexOr h with
+    | some data =>
+      if !(C50.Https.inAsciiDomain (data.drop 2)) then "skip" else
+      match C50.Https.unpack C50.Https.asciiCodec data with
+      | none => "err"
+      | some r =>
+        let j := C50.Https.toJson r
+        let ps := ";".intercalate (j.params.map (fun kv =>
+          (match kv.1 with | .name s => s | .num n => toString n) ++ ":" ++ showBytes kv.2))
+        let back := match (C50.Https.fromJson j).bind (C50.Https.pack C50.Https.asciiCodec) with
+          | some b => showBytes b | none => "raise"
+        s!"pri={j.priority} name={showCps50 j.target} params={if ps.isEmpty then "-" else ps} back={back}"
+    | none => "bad-op"
   | _ => "bad-op"
 
 def main : IO Unit := runPure c50Step
